@@ -258,6 +258,8 @@ def make_payload(rng, cls, n):
         return (unit * (n // len(unit) + 1))[:n]
     if cls == "zeros":
         return bytes(n)
+    if cls == "run":
+        return b"a" * n
     if cls == "text":
         out = bytearray()
         while len(out) < n:
@@ -1410,6 +1412,29 @@ def gen_cases(tier, seed):
                 payloads=c2s_payloads(frag), zlevel=rng.choice([0, 1, 6, 9]), strategy=rng.choice([0, 0, 0, 1, 2, 3, 4]),
                 chunk=rng.choice([0, 0, 0, 1, 7, 1000]), style=rng.choice(["sync", "sync", "sync", "full"]),
                 takeover=rng.choice([None, None, False]), misalign=rng.randrange(8))
+    # --- c2s: messages that inflate to EXACTLY the size an inflater's output buffer has after k doublings, for growth rules of the
+    # form (f * compressed length + c) * 2^k (a buffer that is filled to its last byte and asked for more)
+    def exact_fit(f, c, k, zlevel=6, wbits=15):
+        n = 2000
+        for _ in range(12):
+            co = zlib.compressobj(zlevel, zlib.DEFLATED, -wbits)
+            ln = len(co.compress(b"a" * n) + co.flush(zlib.Z_SYNC_FLUSH)) - 4
+            n2 = (f * ln + c) * (1 << k)
+            if n2 == n:
+                return n
+            n = n2
+        return None
+    for level in (1, 2, 3):
+        for (f, c) in ((20, 16), (2, 0), (4, 0), (10, 0), (16, 16), (20, 0)):
+            for k in ((0, 1, 2, 3) if thorough else (0, 1, 2)):
+                n = exact_fit(f, c, k)
+                if n is None or n > 60000:
+                    continue
+                for dn in ((0, -1, 1) if thorough else (0,)):
+                    det = ("exact-fit", level, f, c, k, dn)
+                    add("c2s", fixed=det, level=level, kind="t", offer={}, frag="single", payloads=[("run", n + dn)], zlevel=6)
+                    if thorough or (f, c) == (20, 16):
+                        add("c2s", fixed=det, level=level, kind="b", offer={"cnct": True}, frag="halves", payloads=[("text", 30), ("run", n + dn)], zlevel=6)
     # deterministic minimal witnesses (stable inputs, independent of the seed's sampling)
     for level in (1, 2, 3):
         det = ("c2s-witness", level)
